@@ -11,6 +11,8 @@ import (
 	"fmt"
 	"io"
 	"math/big"
+	"os"
+	"runtime"
 	"regexp"
 	"sync"
 	"sync/atomic"
@@ -33,6 +35,9 @@ var PulseWait = 300 * time.Millisecond
 // noPulse is set once a run has waited in vain for the deadline pulse, so that
 // a library that never sets deadlines does not cost PulseWait per case.
 var noPulse atomic.Bool
+
+// DumpStacks makes a watchdog expiry print all goroutine stacks (debugging).
+var DumpStacks = os.Getenv("C04_STACKS") != ""
 
 // Obs is what one run of the implementation showed.
 type Obs struct {
@@ -355,6 +360,11 @@ func Run(sc *Scenario, f Fault, mat *TLSMaterial) Obs {
 	case r = <-resc:
 	case <-time.After(Watchdog):
 		obs.TimedOut = true
+		if DumpStacks {
+			buf := make([]byte, 1<<20)
+			buf = buf[:runtime.Stack(buf, true)]
+			fmt.Fprintf(os.Stderr, "=== watchdog: %s %+v\n%s\n", sc.Name, f, buf)
+		}
 	}
 	obs.Elapsed = time.Since(start)
 	cancel()
